@@ -23,12 +23,14 @@ LtHex4(c) == <<LtHexUnit((c \div 4096) % 16), LtHexUnit((c \div 256) % 16), LtHe
 LtSp(nm, txt) == [sp |-> nm, t |-> txt]
 \* a non-negative finite number: shortest decimal (the host keeps an integer for integer literals), the same with a
 \* fraction part / an exponent part (a host float), hexadecimal for integers below 2^53
+LtNoPlus(t) == SelectSeq(t, LAMBDA c : c # 43)
 LtMagSpellings(m) ==
   LET t == NumToText(m)
       isint == m.c = "zero" \/ (DIsInteger(m) /\ m.e + BnBitLen(m.m) <= 53)
   IN <<LtSp("dec", t)>>
      \o (IF ~LtHas(t, {46, 101}) THEN <<LtSp("dot", t \o <<46, 48>>)>> ELSE <<>>)
-     \o (IF ~LtHas(t, {101}) THEN <<LtSp("exp", t \o <<101, 48>>)>> ELSE <<>>)
+     \o (IF ~LtHas(t, {101}) THEN <<LtSp("exp", t \o <<101, 48>>)>>
+         ELSE <<LtSp("exp", [lt_k \in 1..Len(LtNoPlus(t)) |-> IF LtNoPlus(t)[lt_k] = 101 THEN 69 ELSE LtNoPlus(t)[lt_k]])>>)      \* 1e+21 as 1E21
      \o (IF isint THEN <<LtSp("hex", <<48, 120>> \o LtHexUnits(DTruncMag(m)))>> ELSE <<>>)
 LtMinus(sps) == [lt_k \in 1..Len(sps) |-> LtSp(sps[lt_k].sp, <<45>> \o sps[lt_k].t)]
 \* a string literal: the quote, the backslash, controls, line terminators and white space beyond the blank are escaped;
